@@ -117,3 +117,95 @@ type Value struct{ v interface{} }
 
 func (x *Value) Load() (r interface{}) { vrt.AtomicOp(x, func() uint64 { r = x.v; return 0 }); return }
 func (x *Value) Store(v interface{})   { vrt.AtomicOp(x, func() uint64 { x.v = v; return 0 }) }
+
+func SwapUint32(p *uint32, v uint32) (o uint32) {
+	vrt.AtomicOp(p, func() uint64 { o = *p; *p = v; return uint64(o) })
+	return
+}
+func SwapUint64(p *uint64, v uint64) (o uint64) {
+	vrt.AtomicOp(p, func() uint64 { o = *p; *p = v; return o })
+	return
+}
+func CompareAndSwapUint64(p *uint64, o, n uint64) (ok bool) {
+	vrt.AtomicOp(p, func() uint64 {
+		if *p == o {
+			*p = n
+			ok = true
+			return 1
+		}
+		return 0
+	})
+	return
+}
+
+// Uint32 mirrors atomic.Uint32.
+type Uint32 struct{ v uint32 }
+
+func (x *Uint32) Load() uint32                    { return LoadUint32(&x.v) }
+func (x *Uint32) Store(v uint32)                  { StoreUint32(&x.v, v) }
+func (x *Uint32) Add(d uint32) uint32             { return AddUint32(&x.v, d) }
+func (x *Uint32) Swap(v uint32) uint32            { return SwapUint32(&x.v, v) }
+func (x *Uint32) CompareAndSwap(o, n uint32) bool { return CompareAndSwapUint32(&x.v, o, n) }
+
+// Uint64 mirrors atomic.Uint64.
+type Uint64 struct{ v uint64 }
+
+func (x *Uint64) Load() uint64                    { return LoadUint64(&x.v) }
+func (x *Uint64) Store(v uint64)                  { StoreUint64(&x.v, v) }
+func (x *Uint64) Add(d uint64) uint64             { return AddUint64(&x.v, d) }
+func (x *Uint64) Swap(v uint64) uint64            { return SwapUint64(&x.v, v) }
+func (x *Uint64) CompareAndSwap(o, n uint64) bool { return CompareAndSwapUint64(&x.v, o, n) }
+
+func (x *Bool) Swap(b bool) bool {
+	n := int32(0)
+	if b {
+		n = 1
+	}
+	return SwapInt32(&x.v, n) != 0
+}
+func (x *Bool) CompareAndSwap(o, n bool) bool {
+	oi, ni := int32(0), int32(0)
+	if o {
+		oi = 1
+	}
+	if n {
+		ni = 1
+	}
+	return CompareAndSwapInt32(&x.v, oi, ni)
+}
+
+// Pointer mirrors atomic.Pointer.
+type Pointer[T any] struct{ p *T }
+
+func (x *Pointer[T]) Load() (r *T) { vrt.AtomicOp(x, func() uint64 { r = x.p; return 0 }); return }
+func (x *Pointer[T]) Store(v *T)   { vrt.AtomicOp(x, func() uint64 { x.p = v; return 0 }) }
+func (x *Pointer[T]) Swap(v *T) (o *T) {
+	vrt.AtomicOp(x, func() uint64 { o = x.p; x.p = v; return 0 })
+	return
+}
+func (x *Pointer[T]) CompareAndSwap(o, n *T) (ok bool) {
+	vrt.AtomicOp(x, func() uint64 {
+		if x.p == o {
+			x.p = n
+			ok = true
+			return 1
+		}
+		return 0
+	})
+	return
+}
+func (x *Value) Swap(v interface{}) (o interface{}) {
+	vrt.AtomicOp(x, func() uint64 { o = x.v; x.v = v; return 0 })
+	return
+}
+func (x *Value) CompareAndSwap(o, n interface{}) (ok bool) {
+	vrt.AtomicOp(x, func() uint64 {
+		if x.v == o {
+			x.v = n
+			ok = true
+			return 1
+		}
+		return 0
+	})
+	return
+}
